@@ -213,6 +213,9 @@ let dispatch (fn : string) (args : sx list) : sx =
   | "sp_model", [divs; rows] ->
       let d = get_list get_z divs and r = get_list get_z rows in
       L [of_list of_nat (List.map (sp_part d) r); of_list (of_list of_z) (sp_parts d r)]
+  | "sp_model_desc", [divs; rows] ->
+      let d = get_list get_z divs and r = get_list get_z rows in
+      L [of_list of_nat (List.map (sp_part_desc d) r); of_list (of_list of_z) (sp_parts_desc d r)]
   | "dnf_extract", [t] -> of_opt (of_list (of_list of_atom)) (extract (get_ptree t))
   | _ -> failwith ("unknown request " ^ fn)
 (*DISPATCH-END*)
